@@ -3,8 +3,8 @@ import market_checks
 import py_checks
 
 PROP = "C02"
-LEAN_MODULES = ["PamsProps.C02", "PamsProps.SrcAccept"]
-NAMESPACES = ["Pams.C02", "Pams.C02"]
+LEAN_MODULES = ["PamsProps.C02", "PamsProps.SrcAccept", "PamsProps.SrcRound21"]
+NAMESPACES = ["Pams.C02", "Pams.C02", "Pams.C02"]
 DRIVERS = ["Market", "Sim", "PyRun"]
 TRUSTED = [
     "modelled, not verified: heapq (abstracted to the sorted list; pop order compared on every state), Order.__eq__-based list.remove, IEEE doubles used only through <,== (monotone integer keys)",
